@@ -27,10 +27,24 @@
       access, for every builtin of the family, every nesting depth, every strictly nameable object.
   [interp] the base name of a getattr-family spelling is demanded to be the object's base
   (`Spec.base`); the code returns the builtin's name — recorded as `C10_cex_xattr_base`.
+
+  The CONSUMERS of the namers (section `Consumers`, the property is about names "wherever rattr
+  reports them"):
+    * `tieA_consumer_sites` — the references to namers in the source = `NamingSites.sites`;
+    * `toExpr`, `node_names_spec` — the `Node`-level namers the function-analyser model calls return
+      `(Spec.base, Spec.spell)` of the projection (safe; strict when variable-based);
+    * `C10_site_access / classAssign / lambdaAssign / namedtupleAssign / argNames / kwargNames /
+      unravel / call / returnClass`, `C10_obs_walrus_positional` — which of (base, spelling) the
+      visitor records where, for all targets / arguments / calls of the getattr-family-free fragment;
+    * `C10_cex_call_on_call_collapsed / receiver_prefix_base / xattr_lhs_base / sorted_unbound_base`
+      — what the string operations downstream of the namers do to a documented spelling.
 -/
 import RattrModel.Naming
 import RattrModel.Spec.Spell
 import RattrModel.Generated.C10
+import RattrModel.NamingSites
+import RattrModel.FnAnalyser
+import RattrProofs.Lemmas.Visit
 
 namespace Rattr.C10
 open Rattr Rattr.Naming
@@ -42,6 +56,12 @@ theorem tieA_builtins : Generated.C10.attrAccessBuiltins = Naming.attrAccessBuil
 theorem tieA_node_with_name : Generated.C10.astNodeWithName = Naming.astNodeWithName := by decide
 theorem tieA_literals : Generated.C10.astLiterals = Naming.astLiterals := by decide
 theorem tieA_comprehensions : Generated.C10.astComprehensions = Naming.astComprehensions := by decide
+
+/-- Tie A for the consumers: the references to the namers found in the source of the repo under
+test (file, scope, namer, ordinal, consuming statement) are exactly the rows of the model's table
+`NamingSites.sites`. A new call site, a vanished one or a rewritten consuming statement breaks
+this obligation. -/
+theorem tieA_consumer_sites : Generated.C10.consumerSites = NamingSites.keys := by rfl
 
 /-- The leftmost leaf of the func/value spine: the identifier, or the `@Kind` stand-in. This is the
 base name both namers return whenever they succeed (`namesOf_base`, `oldNames_base`). -/
@@ -67,25 +87,25 @@ theorem unnameable_ok {s : Bool} {k b l : Str} (h : unnameable s k = .ok b l) :
   exact ⟨h.1.symm, h.2.symm⟩
 
 theorem namesOf_base : ∀ (e : Expr) (u s : Bool) (b l : Str),
-    namesOf u s e = .ok b l → b = plainBase e
+    Naming.namesOf u s e = .ok b l → b = plainBase e
   | .name x, u, s, b, l, h => by
-    simp [namesOf] at h
+    simp [Naming.namesOf] at h
     simp [plainBase, h.1]
   | .attr e a, u, s, b, l, h => by
-    simp only [namesOf] at h
+    simp only [Naming.namesOf] at h
     obtain ⟨l', h', _⟩ := mapFull_ok h
     simpa [plainBase] using namesOf_base e true s b l' h'
   | .sub e, u, s, b, l, h => by
-    simp only [namesOf] at h
+    simp only [Naming.namesOf] at h
     obtain ⟨l', h', _⟩ := mapFull_ok h
     simpa [plainBase] using namesOf_base e true s b l' h'
   | .starred e, u, s, b, l, h => by
-    simp only [namesOf] at h
+    simp only [Naming.namesOf] at h
     obtain ⟨l', h', _⟩ := mapFull_ok h
     simpa [plainBase] using namesOf_base e true s b l' h'
   | .call f args, u, s, b, l, h => by
-    simp only [namesOf] at h
-    cases h' : namesOf true s f with
+    simp only [Naming.namesOf] at h
+    cases h' : Naming.namesOf true s f with
     | ok b' l' =>
       have ih := namesOf_base f true s b' l' h'
       rw [h'] at h
@@ -99,33 +119,33 @@ theorem namesOf_base : ∀ (e : Expr) (u s : Bool) (b l : Str),
     | fatal w => rw [h'] at h; simp at h
     | raised x => rw [h'] at h; simp at h
   | .strConst _, u, s, b, l, h => by
-    simp only [namesOf] at h
+    simp only [Naming.namesOf] at h
     simp [plainBase, (unnameable_ok h).2.1]
   | .other k, u, s, b, l, h => by
-    simp only [namesOf] at h
+    simp only [Naming.namesOf] at h
     simp [plainBase, (unnameable_ok h).2.1]
 
 
 theorem oldNames_base : ∀ (e : Expr) (s : Bool) (b l : Str),
-    oldNames s e = .ok b l → b = plainBase e
+    Naming.oldNames s e = .ok b l → b = plainBase e
   | .name x, s, b, l, h => by
-    simp [oldNames] at h
+    simp [Naming.oldNames] at h
     simp [plainBase, h.1]
   | .attr e a, s, b, l, h => by
-    simp only [oldNames] at h
+    simp only [Naming.oldNames] at h
     obtain ⟨l', h', _⟩ := mapFull_ok h
     simpa [plainBase] using oldNames_base e s b l' h'
   | .sub e, s, b, l, h => by
-    simp only [oldNames] at h
+    simp only [Naming.oldNames] at h
     obtain ⟨l', h', _⟩ := mapFull_ok h
     simpa [plainBase] using oldNames_base e s b l' h'
   | .starred e, s, b, l, h => by
-    simp only [oldNames] at h
+    simp only [Naming.oldNames] at h
     obtain ⟨l', h', _⟩ := mapFull_ok h
     simpa [plainBase] using oldNames_base e s b l' h'
   | .call f args, s, b, l, h => by
-    simp only [oldNames] at h
-    cases h' : oldNames s f with
+    simp only [Naming.oldNames] at h
+    cases h' : Naming.oldNames s f with
     | ok b' l' =>
       have ih := oldNames_base f s b' l' h'
       rw [h'] at h
@@ -139,63 +159,63 @@ theorem oldNames_base : ∀ (e : Expr) (s : Bool) (b l : Str),
     | fatal w => rw [h'] at h; simp at h
     | raised x => rw [h'] at h; simp at h
   | .strConst _, s, b, l, h => by
-    simp only [oldNames] at h
+    simp only [Naming.oldNames] at h
     simp [plainBase, (unnameable_ok h).2.1]
   | .other k, s, b, l, h => by
-    simp only [oldNames] at h
+    simp only [Naming.oldNames] at h
     simp [plainBase, (unnameable_ok h).2.1]
 
 /-! ### The five compositional equations + the stand-in, for ALL expressions (both namers) -/
 
 /-- `x` is `x`. -/
 theorem C10_eq_name (u s : Bool) (x : Str) :
-    namesOf u s (.name x) = .ok x x ∧ oldNames s (.name x) = .ok x x := by
-  simp [namesOf, oldNames]
+    Naming.namesOf u s (.name x) = .ok x x ∧ Naming.oldNames s (.name x) = .ok x x := by
+  simp [Naming.namesOf, Naming.oldNames]
 
 /-- `e.a` is `E.a`: whatever `e` is, success or failure. -/
 theorem C10_eq_attr (u s : Bool) (e : Expr) (a : Str) :
-    namesOf u s (.attr e a) = (namesOf true s e).mapFull (· ++ dot ++ a)
-    ∧ oldNames s (.attr e a) = (oldNames s e).mapFull (· ++ dot ++ a) := by
-  simp [namesOf, oldNames]
+    Naming.namesOf u s (.attr e a) = (Naming.namesOf true s e).mapFull (· ++ dot ++ a)
+    ∧ Naming.oldNames s (.attr e a) = (Naming.oldNames s e).mapFull (· ++ dot ++ a) := by
+  simp [Naming.namesOf, Naming.oldNames]
 
 /-- `e[i]` is `E[]`. -/
 theorem C10_eq_sub (u s : Bool) (e : Expr) :
-    namesOf u s (.sub e) = (namesOf true s e).mapFull (· ++ brackets)
-    ∧ oldNames s (.sub e) = (oldNames s e).mapFull (· ++ brackets) := by
-  simp [namesOf, oldNames]
+    Naming.namesOf u s (.sub e) = (Naming.namesOf true s e).mapFull (· ++ brackets)
+    ∧ Naming.oldNames s (.sub e) = (Naming.oldNames s e).mapFull (· ++ brackets) := by
+  simp [Naming.namesOf, Naming.oldNames]
 
 /-- `*e` is `*E`. -/
 theorem C10_eq_starred (u s : Bool) (e : Expr) :
-    namesOf u s (.starred e) = (namesOf true s e).mapFull (star ++ ·)
-    ∧ oldNames s (.starred e) = (oldNames s e).mapFull (star ++ ·) := by
-  simp [namesOf, oldNames]
+    Naming.namesOf u s (.starred e) = (Naming.namesOf true s e).mapFull (star ++ ·)
+    ∧ Naming.oldNames s (.starred e) = (Naming.oldNames s e).mapFull (star ++ ·) := by
+  simp [Naming.namesOf, Naming.oldNames]
 
 /-- `e(...)` is `E()` unless the base name of `e` is one of the four getattr-family builtins. -/
 theorem C10_eq_call (u s : Bool) (f : Expr) (args : List Expr)
     (h : isXattr (plainBase f) = false) :
-    namesOf u s (.call f args) = (namesOf true s f).mapFull (· ++ parens)
-    ∧ oldNames s (.call f args) = (oldNames s f).mapFull (· ++ parens) := by
+    Naming.namesOf u s (.call f args) = (Naming.namesOf true s f).mapFull (· ++ parens)
+    ∧ Naming.oldNames s (.call f args) = (Naming.oldNames s f).mapFull (· ++ parens) := by
   constructor
-  · simp only [namesOf]
-    cases h' : namesOf true s f with
+  · simp only [Naming.namesOf]
+    cases h' : Naming.namesOf true s f with
     | ok b l =>
       have := namesOf_base f true s b l h'
       simp [Out.mapFull, this, h]
     | fatal w => simp [Out.mapFull]
     | raised x => simp [Out.mapFull]
-  · simp only [oldNames]
+  · simp only [Naming.oldNames]
     have hd : isDirectXattr f = false := by
       cases f <;> simp_all [isDirectXattr, plainBase]
-    cases h' : oldNames s f with
+    cases h' : Naming.oldNames s f with
     | ok b l => simp [Out.mapFull, hd]
     | fatal w => simp [Out.mapFull]
     | raised x => simp [Out.mapFull]
 
 /-- An expression with no name is `@` followed by its AST node type (safe naming). -/
 theorem C10_eq_standin (u : Bool) (k : Str) :
-    namesOf u true (.other k) = .ok ('@' :: k) ('@' :: k)
-    ∧ oldNames true (.other k) = .ok ('@' :: k) ('@' :: k) := by
-  simp [namesOf, oldNames, unnameable, literalPrefix]
+    Naming.namesOf u true (.other k) = .ok ('@' :: k) ('@' :: k)
+    ∧ Naming.oldNames true (.other k) = .ok ('@' :: k) ('@' :: k) := by
+  simp [Naming.namesOf, Naming.oldNames, unnameable, literalPrefix]
 
 
 /-! ### (a) on the getattr-family-free fragment: both namers equal the README spelling -/
@@ -252,18 +272,18 @@ theorem spec_base_plain : ∀ e, xattrFree e = true → Spec.base e = plainBase 
 /-- **(a), safe naming.** On every getattr-family-free expression — any node kinds, any depth — both
 namers return exactly the README base and spelling. -/
 theorem C10_compositional : ∀ (e : Expr) (u : Bool), xattrFree e = true →
-    namesOf u true e = .ok (Spec.base e) (Spec.spell e)
-    ∧ oldNames true e = .ok (Spec.base e) (Spec.spell e)
-  | .name x, u, _ => by simp [namesOf, oldNames, Spec.base, Spec.spell]
+    Naming.namesOf u true e = .ok (Spec.base e) (Spec.spell e)
+    ∧ Naming.oldNames true e = .ok (Spec.base e) (Spec.spell e)
+  | .name x, u, _ => by simp [Naming.namesOf, Naming.oldNames, Spec.base, Spec.spell]
   | .attr e a, u, h => by
     have ih := C10_compositional e true (by simpa [xattrFree] using h)
-    simp [namesOf, oldNames, ih.1, ih.2, Out.mapFull, Spec.base, Spec.spell, dot]
+    simp [Naming.namesOf, Naming.oldNames, ih.1, ih.2, Out.mapFull, Spec.base, Spec.spell, dot]
   | .sub e, u, h => by
     have ih := C10_compositional e true (by simpa [xattrFree] using h)
-    simp [namesOf, oldNames, ih.1, ih.2, Out.mapFull, Spec.base, Spec.spell, brackets]
+    simp [Naming.namesOf, Naming.oldNames, ih.1, ih.2, Out.mapFull, Spec.base, Spec.spell, brackets]
   | .starred e, u, h => by
     have ih := C10_compositional e true (by simpa [xattrFree] using h)
-    simp [namesOf, oldNames, ih.1, ih.2, Out.mapFull, Spec.base, Spec.spell, star]
+    simp [Naming.namesOf, Naming.oldNames, ih.1, ih.2, Out.mapFull, Spec.base, Spec.spell, star]
   | .call f args, u, h => by
     simp [xattrFree] at h
     have ih := C10_compositional f true h.1
@@ -274,9 +294,9 @@ theorem C10_compositional : ∀ (e : Expr) (u : Bool), xattrFree e = true →
     rw [hc.1, hc.2, ih.1, ih.2, hs.1, hs.2]
     simp [Out.mapFull]
   | .strConst _, u, _ => by
-    simp [namesOf, oldNames, unnameable, literalPrefix, kConstant, Spec.base, Spec.spell]
+    simp [Naming.namesOf, Naming.oldNames, unnameable, literalPrefix, kConstant, Spec.base, Spec.spell]
   | .other k, u, _ => by
-    simp [namesOf, oldNames, unnameable, literalPrefix, Spec.base, Spec.spell]
+    simp [Naming.namesOf, Naming.oldNames, unnameable, literalPrefix, Spec.base, Spec.spell]
 
 /-- The spine ends in a variable. -/
 def strictlyNameable : Expr → Bool
@@ -291,18 +311,18 @@ def strictlyNameable : Expr → Bool
 /-- **(a), strict naming.** The same under `safe=False` when the innermost node is a variable. -/
 theorem C10_compositional_strict : ∀ (e : Expr) (u : Bool),
     xattrFree e = true → strictlyNameable e = true →
-    namesOf u false e = .ok (Spec.base e) (Spec.spell e)
-    ∧ oldNames false e = .ok (Spec.base e) (Spec.spell e)
-  | .name x, u, _, _ => by simp [namesOf, oldNames, Spec.base, Spec.spell]
+    Naming.namesOf u false e = .ok (Spec.base e) (Spec.spell e)
+    ∧ Naming.oldNames false e = .ok (Spec.base e) (Spec.spell e)
+  | .name x, u, _, _ => by simp [Naming.namesOf, Naming.oldNames, Spec.base, Spec.spell]
   | .attr e a, u, h, hn => by
     have ih := C10_compositional_strict e true (by simpa [xattrFree] using h) (by simpa [strictlyNameable] using hn)
-    simp [namesOf, oldNames, ih.1, ih.2, Out.mapFull, Spec.base, Spec.spell, dot]
+    simp [Naming.namesOf, Naming.oldNames, ih.1, ih.2, Out.mapFull, Spec.base, Spec.spell, dot]
   | .sub e, u, h, hn => by
     have ih := C10_compositional_strict e true (by simpa [xattrFree] using h) (by simpa [strictlyNameable] using hn)
-    simp [namesOf, oldNames, ih.1, ih.2, Out.mapFull, Spec.base, Spec.spell, brackets]
+    simp [Naming.namesOf, Naming.oldNames, ih.1, ih.2, Out.mapFull, Spec.base, Spec.spell, brackets]
   | .starred e, u, h, hn => by
     have ih := C10_compositional_strict e true (by simpa [xattrFree] using h) (by simpa [strictlyNameable] using hn)
-    simp [namesOf, oldNames, ih.1, ih.2, Out.mapFull, Spec.base, Spec.spell, star]
+    simp [Naming.namesOf, Naming.oldNames, ih.1, ih.2, Out.mapFull, Spec.base, Spec.spell, star]
   | .call f args, u, h, hn => by
     simp [xattrFree] at h
     have ih := C10_compositional_strict f true h.1 (by simpa [strictlyNameable] using hn)
@@ -335,7 +355,7 @@ def argsOk (fn : Str) : List Expr → Bool
   | obj :: nm :: _ =>
     okFor true nm &&
       (match obj with
-       | .call f' args' => isCallTo fn f' && argsOk fn args'
+       | .call f' args' => Naming.isCallTo fn f' && argsOk fn args'
        | .name _ => true
        | .attr e _ => okFor false e
        | .sub e => okFor false e
@@ -356,15 +376,15 @@ theorem isOk_pairPlain (nmOut objOut : Out) (nm : Expr) :
   cases nmOut <;> cases objOut <;> rfl
 
 mutual
-theorem total_e : ∀ (e : Expr) (s : Bool), (namesOf true s e).isOk = okFor s e
-  | .name x, s => by simp [namesOf, okFor, Out.isOk]
-  | .attr e a, s => by simp only [namesOf, okFor, isOk_mapFull]; exact total_e e s
-  | .sub e, s => by simp only [namesOf, okFor, isOk_mapFull]; exact total_e e s
-  | .starred e, s => by simp only [namesOf, okFor, isOk_mapFull]; exact total_e e s
+theorem total_e : ∀ (e : Expr) (s : Bool), (Naming.namesOf true s e).isOk = okFor s e
+  | .name x, s => by simp [Naming.namesOf, okFor, Out.isOk]
+  | .attr e a, s => by simp only [Naming.namesOf, okFor, isOk_mapFull]; exact total_e e s
+  | .sub e, s => by simp only [Naming.namesOf, okFor, isOk_mapFull]; exact total_e e s
+  | .starred e, s => by simp only [Naming.namesOf, okFor, isOk_mapFull]; exact total_e e s
   | .call f args, s => by
     have ih := total_e f s
-    simp only [namesOf, okFor]
-    cases h' : namesOf true s f with
+    simp only [Naming.namesOf, okFor]
+    cases h' : Naming.namesOf true s f with
     | ok b l =>
       have hb := namesOf_base f true s b l h'
       rw [h'] at ih
@@ -379,8 +399,8 @@ theorem total_e : ∀ (e : Expr) (s : Bool), (namesOf true s e).isOk = okFor s e
         cases pairOf b args <;> simp [Out.isOk, hx]
     | fatal w => rw [h'] at ih; simp only [Out.isOk] at ih; simp [Out.isOk, ← ih]
     | raised x => rw [h'] at ih; simp only [Out.isOk] at ih; simp [Out.isOk, ← ih]
-  | .strConst _, s => by cases s <;> simp [namesOf, okFor, unnameable, Out.isOk]
-  | .other k, s => by cases s <;> simp [namesOf, okFor, unnameable, Out.isOk]
+  | .strConst _, s => by cases s <;> simp [Naming.namesOf, okFor, unnameable, Out.isOk]
+  | .other k, s => by cases s <;> simp [Naming.namesOf, okFor, unnameable, Out.isOk]
 
 theorem total_args : ∀ (fn : Str) (args : List Expr), (pairOf fn args).isOk = argsOk fn args
   | fn, [] => by simp [pairOf, argsOk, Out.isOk]
@@ -390,16 +410,16 @@ theorem total_args : ∀ (fn : Str) (args : List Expr), (pairOf fn args).isOk = 
     have ia := total_args fn args'
     simp only [pairOf, argsOk]
     rw [← inm, ← ia]
-    cases namesOf true true nm with
+    cases Naming.namesOf true true nm with
     | ok bn vn =>
-      cases hc : isCallTo fn f' with
+      cases hc : Naming.isCallTo fn f' with
       | false => simp [Out.isOk]
       | true => cases pairOf fn args' <;> simp [Out.isOk]
     | fatal w => simp [Out.isOk]
     | raised x => simp [Out.isOk]
   | fn, .name id :: nm :: rest => by
     simp only [pairOf, argsOk, isOk_pairPlain, total_e nm true]
-    simp [namesOf, Out.isOk]
+    simp [Naming.namesOf, Out.isOk]
   | fn, .attr e a :: nm :: rest => by
     simp only [pairOf, argsOk, isOk_pairPlain, total_e nm true, total_e (.attr e a) false, okFor]
   | fn, .sub e :: nm :: rest => by
@@ -414,16 +434,16 @@ end
 
 
 /-- **(c), decidable form.** `names_of(e, safe=s)` succeeds exactly on `okFor s e`. -/
-theorem C10_total_iff (e : Expr) (s : Bool) : (namesOf true s e).isOk = okFor s e := total_e e s
+theorem C10_total_iff (e : Expr) (s : Bool) : (Naming.namesOf true s e).isOk = okFor s e := total_e e s
 
 /-- **(c) on the stated fragment.** If every getattr-family call the namer meets has two arguments,
 a safely nameable name argument and a strictly nameable (or same-builtin nested) object, safe
 naming returns a value — it neither raises nor exits — and the base is the spine's leftmost name. -/
 theorem C10_total_partial (e : Expr) (h : okFor true e = true) :
-    ∃ b l, namesOf true true e = .ok b l ∧ b = plainBase e := by
+    ∃ b l, Naming.namesOf true true e = .ok b l ∧ b = plainBase e := by
   have := C10_total_iff e true
   rw [h] at this
-  cases h' : namesOf true true e with
+  cases h' : Naming.namesOf true true e with
   | ok b l => exact ⟨b, l, rfl, namesOf_base e true true b l h'⟩
   | fatal w => rw [h'] at this; simp [Out.isOk] at this
   | raised x => rw [h'] at this; simp [Out.isOk] at this
@@ -450,7 +470,7 @@ def agreeOK : Expr → Bool
 def agreeArgs (fn : Str) : List Expr → Bool
   | [] => true
   | [_] => true
-  | .call f' args' :: nm :: _ => agreeOK nm && (!isCallTo fn f' || agreeArgs fn args')
+  | .call f' args' :: nm :: _ => agreeOK nm && (!Naming.isCallTo fn f' || agreeArgs fn args')
   | .name _ :: nm :: _ => agreeOK nm
   | .attr e _ :: nm :: _ => agreeOK nm && agreeOK e
   | .sub e :: nm :: _ => agreeOK nm && agreeOK e
@@ -459,11 +479,11 @@ def agreeArgs (fn : Str) : List Expr → Bool
   | .other k :: nm :: _ => agreeOK nm && decide (excOfKind k = .typeError)
 end
 
-theorem attr_link_ok (nm : Expr) (b v : Str) (h : namesOf true true nm = .ok b v) :
+theorem attr_link_ok (nm : Expr) (b v : Str) (h : Naming.namesOf true true nm = .ok b v) :
     ∃ b', oldAttrName (.ok b v) nm = .ok b' (attrText nm v) := by
   cases nm with
   | strConst s =>
-    simp [namesOf, unnameable] at h
+    simp [Naming.namesOf, unnameable] at h
     simp [oldAttrName, attrText]
   | name x => simp [oldAttrName, attrText, Out.mapFull]
   | attr e a => simp [oldAttrName, attrText, Out.mapFull]
@@ -472,10 +492,10 @@ theorem attr_link_ok (nm : Expr) (b v : Str) (h : namesOf true true nm = .ok b v
   | call f a => simp [oldAttrName, attrText, Out.mapFull]
   | other k => simp [oldAttrName, attrText, Out.mapFull]
 
-theorem attr_link_fail (nm : Expr) (o : Out) (h : namesOf true true nm = o) (hf : o.isOk = false) :
+theorem attr_link_fail (nm : Expr) (o : Out) (h : Naming.namesOf true true nm = o) (hf : o.isOk = false) :
     oldAttrName o nm = o := by
   cases nm with
-  | strConst s => subst h; simp [namesOf, unnameable, Out.isOk] at hf
+  | strConst s => subst h; simp [Naming.namesOf, unnameable, Out.isOk] at hf
   | name x => cases o <;> simp_all [oldAttrName, Out.mapFull, Out.isOk]
   | attr e a => cases o <;> simp_all [oldAttrName, Out.mapFull, Out.isOk]
   | sub e => cases o <;> simp_all [oldAttrName, Out.mapFull, Out.isOk]
@@ -483,7 +503,7 @@ theorem attr_link_fail (nm : Expr) (o : Out) (h : namesOf true true nm = o) (hf 
   | call f a => cases o <;> simp_all [oldAttrName, Out.mapFull, Out.isOk]
   | other k => cases o <;> simp_all [oldAttrName, Out.mapFull, Out.isOk]
 
-theorem plain_link (nm : Expr) (o x : Out) (h : namesOf true true nm = o) :
+theorem plain_link (nm : Expr) (o x : Out) (h : Naming.namesOf true true nm = o) :
     pairPlain o nm x = oldPlain (oldAttrName o nm) x := by
   cases o with
   | ok b v =>
@@ -493,14 +513,14 @@ theorem plain_link (nm : Expr) (o x : Out) (h : namesOf true true nm = o) :
   | raised e => simp [pairPlain, oldPlain, attr_link_fail nm _ h rfl]
 
 mutual
-theorem agree_e : ∀ (e : Expr) (s : Bool), agreeOK e = true → namesOf true s e = oldNames s e
-  | .name x, s, _ => by simp [namesOf, oldNames]
+theorem agree_e : ∀ (e : Expr) (s : Bool), agreeOK e = true → Naming.namesOf true s e = Naming.oldNames s e
+  | .name x, s, _ => by simp [Naming.namesOf, Naming.oldNames]
   | .attr e a, s, h => by
-    simp only [namesOf, oldNames, agree_e e s (by simpa [agreeOK] using h)]
+    simp only [Naming.namesOf, Naming.oldNames, agree_e e s (by simpa [agreeOK] using h)]
   | .sub e, s, h => by
-    simp only [namesOf, oldNames, agree_e e s (by simpa [agreeOK] using h)]
+    simp only [Naming.namesOf, Naming.oldNames, agree_e e s (by simpa [agreeOK] using h)]
   | .starred e, s, h => by
-    simp only [namesOf, oldNames, agree_e e s (by simpa [agreeOK] using h)]
+    simp only [Naming.namesOf, Naming.oldNames, agree_e e s (by simpa [agreeOK] using h)]
   | .call f args, s, h => by
     simp only [agreeOK, Bool.and_eq_true, Bool.or_eq_true, Bool.not_eq_true'] at h
     have ih := agree_e f s h.1
@@ -515,15 +535,15 @@ theorem agree_e : ∀ (e : Expr) (s : Bool), agreeOK e = true → namesOf true s
       | name g =>
         have hg : isXattr g = true := by simpa [plainBase] using hx
         have ia := agree_args g args (by simpa [plainBase] using h2.2)
-        simp [namesOf, oldNames, isDirectXattr, hg, ia]
+        simp [Naming.namesOf, Naming.oldNames, isDirectXattr, hg, ia]
       | attr e a => simp [isName] at h2
       | sub e => simp [isName] at h2
       | starred e => simp [isName] at h2
       | call f' a' => simp [isName] at h2
       | strConst s' => simp [isName] at h2
       | other k => simp [isName] at h2
-  | .strConst _, s, _ => by simp [namesOf, oldNames]
-  | .other k, s, _ => by simp [namesOf, oldNames]
+  | .strConst _, s, _ => by simp [Naming.namesOf, Naming.oldNames]
+  | .other k, s, _ => by simp [Naming.namesOf, Naming.oldNames]
 
 theorem agree_args : ∀ (fn : Str) (args : List Expr), agreeArgs fn args = true →
     pairOf fn args = xattrPair fn args
@@ -534,11 +554,11 @@ theorem agree_args : ∀ (fn : Str) (args : List Expr), agreeArgs fn args = true
     have inm := agree_e nm true h.1
     simp only [pairOf, xattrPair]
     rw [← inm]
-    cases hn : namesOf true true nm with
+    cases hn : Naming.namesOf true true nm with
     | ok b v =>
       obtain ⟨b', hb⟩ := attr_link_ok nm b v hn
       rw [hb]
-      cases hc : isCallTo fn f' with
+      cases hc : Naming.isCallTo fn f' with
       | false => simp
       | true =>
         have ia := agree_args fn args' (by simpa [hc] using h.2)
@@ -549,7 +569,7 @@ theorem agree_args : ∀ (fn : Str) (args : List Expr), agreeArgs fn args = true
     simp only [agreeArgs] at h
     simp only [pairOf, xattrPair]
     rw [← agree_e nm true h, plain_link nm _ _ rfl]
-    simp [namesOf, oldNames]
+    simp [Naming.namesOf, Naming.oldNames]
   | fn, .attr e a :: nm :: rest, h => by
     simp only [agreeArgs, Bool.and_eq_true] at h
     simp only [pairOf, xattrPair]
@@ -570,13 +590,13 @@ theorem agree_args : ∀ (fn : Str) (args : List Expr), agreeArgs fn args = true
     simp only [agreeArgs, Bool.and_eq_true, decide_eq_true_eq] at h
     simp only [pairOf, xattrPair]
     rw [← agree_e nm true h.1, plain_link nm _ _ rfl]
-    simp [namesOf, unnameable, h.2]
+    simp [Naming.namesOf, unnameable, h.2]
 end
 
 /-- **(b) on the stated fragment**, for both values of `safe`, failures included: the two namers
 return the same value, exit at the same site, or raise the same exception class. -/
 theorem C10_agree_partial (e : Expr) (s : Bool) (h : agreeOK e = true) :
-    namesOf true s e = oldNames s e := agree_e e s h
+    Naming.namesOf true s e = Naming.oldNames s e := agree_e e s h
 
 
 /-! ### Nested literal getattr-family calls spell as the dotted access -/
@@ -595,51 +615,51 @@ def isCall : Expr → Bool
   | .call _ _ => true
   | _ => false
 
-theorem pairOf_nest (fn : Str) (obj : Expr) (b l : Str) (hc : isCall obj = false)
-    (ho : namesOf true false obj = .ok b l) :
+theorem pairOf_nest (fn : Str) (obj : Expr) (b l : Str) (hc : C10.isCall obj = false)
+    (ho : Naming.namesOf true false obj = .ok b l) :
     ∀ (ks : List Str) (k : Str), pairOf fn [nestX fn obj ks, .strConst k] = .ok (dotted l ks) k
   | [], k => by
     cases obj with
-    | call f a => simp [isCall] at hc
-    | name x => simp only [nestX, pairOf, ho]; simp [namesOf, unnameable, pairPlain, objOnly, attrText, dotted]
-    | attr e a => simp only [nestX, pairOf, ho]; simp [namesOf, unnameable, pairPlain, objOnly, attrText, dotted]
-    | sub e => simp only [nestX, pairOf, ho]; simp [namesOf, unnameable, pairPlain, objOnly, attrText, dotted]
-    | starred e => simp only [nestX, pairOf, ho]; simp [namesOf, unnameable, pairPlain, objOnly, attrText, dotted]
-    | strConst s => simp only [nestX, pairOf, ho]; simp [namesOf, unnameable, pairPlain, objOnly, attrText, dotted]
-    | other k' => simp only [nestX, pairOf, ho]; simp [namesOf, unnameable, pairPlain, objOnly, attrText, dotted]
+    | call f a => simp [C10.isCall] at hc
+    | name x => simp only [nestX, pairOf, ho]; simp [Naming.namesOf, unnameable, pairPlain, objOnly, attrText, dotted]
+    | attr e a => simp only [nestX, pairOf, ho]; simp [Naming.namesOf, unnameable, pairPlain, objOnly, attrText, dotted]
+    | sub e => simp only [nestX, pairOf, ho]; simp [Naming.namesOf, unnameable, pairPlain, objOnly, attrText, dotted]
+    | starred e => simp only [nestX, pairOf, ho]; simp [Naming.namesOf, unnameable, pairPlain, objOnly, attrText, dotted]
+    | strConst s => simp only [nestX, pairOf, ho]; simp [Naming.namesOf, unnameable, pairPlain, objOnly, attrText, dotted]
+    | other k' => simp only [nestX, pairOf, ho]; simp [Naming.namesOf, unnameable, pairPlain, objOnly, attrText, dotted]
   | k' :: ks, k => by
     have ih := pairOf_nest fn obj b l hc ho ks k'
     simp only [nestX, pairOf, ih]
-    simp [namesOf, unnameable, isCallTo, attrText, dotted]
+    simp [Naming.namesOf, unnameable, Naming.isCallTo, attrText, dotted]
 
-theorem xattrPair_nest (fn : Str) (obj : Expr) (b l : Str) (hc : isCall obj = false)
-    (ho : oldNames false obj = .ok b l) :
+theorem xattrPair_nest (fn : Str) (obj : Expr) (b l : Str) (hc : C10.isCall obj = false)
+    (ho : Naming.oldNames false obj = .ok b l) :
     ∀ (ks : List Str) (k : Str), xattrPair fn [nestX fn obj ks, .strConst k] = .ok (dotted l ks) k
   | [], k => by
     cases obj with
-    | call f a => simp [isCall] at hc
+    | call f a => simp [C10.isCall] at hc
     | name x => simp only [nestX, xattrPair, ho]; simp [oldAttrName, oldPlain, objOnly, dotted]
     | attr e a => simp only [nestX, xattrPair, ho]; simp [oldAttrName, oldPlain, objOnly, dotted]
     | sub e => simp only [nestX, xattrPair, ho]; simp [oldAttrName, oldPlain, objOnly, dotted]
     | starred e => simp only [nestX, xattrPair, ho]; simp [oldAttrName, oldPlain, objOnly, dotted]
-    | strConst s => simp [oldNames, unnameable] at ho
-    | other k' => simp [oldNames, unnameable] at ho
+    | strConst s => simp [Naming.oldNames, unnameable] at ho
+    | other k' => simp [Naming.oldNames, unnameable] at ho
   | k' :: ks, k => by
     have ih := xattrPair_nest fn obj b l hc ho ks k'
     simp only [nestX, xattrPair, ih]
-    simp [oldAttrName, isCallTo, dotted]
+    simp [oldAttrName, Naming.isCallTo, dotted]
 
 /-- **Nested literal getattr-family calls.** For any of the four builtins, any non-call object that
 strict naming spells `l`, and any non-empty list of literal names, both namers (either `safe`)
 spell the nest as the dotted access `l.kₙ.….k₁`; the base they return is the builtin's name. -/
 theorem C10_xattr (fn : Str) (obj : Expr) (b l : Str) (s : Bool) (k : Str) (ks : List Str)
-    (hf : isXattr fn = true) (hc : isCall obj = false)
-    (hn : namesOf true false obj = .ok b l) (ho : oldNames false obj = .ok b l) :
-    namesOf true s (nestX fn obj (k :: ks)) = .ok fn (dotted l (k :: ks))
-    ∧ oldNames s (nestX fn obj (k :: ks)) = .ok fn (dotted l (k :: ks)) := by
+    (hf : isXattr fn = true) (hc : C10.isCall obj = false)
+    (hn : Naming.namesOf true false obj = .ok b l) (ho : Naming.oldNames false obj = .ok b l) :
+    Naming.namesOf true s (nestX fn obj (k :: ks)) = .ok fn (dotted l (k :: ks))
+    ∧ Naming.oldNames s (nestX fn obj (k :: ks)) = .ok fn (dotted l (k :: ks)) := by
   constructor
-  · simp [nestX, namesOf, hf, pairOf_nest fn obj b l hc hn ks k, dotted]
-  · simp [nestX, oldNames, isDirectXattr, hf, xattrPair_nest fn obj b l hc ho ks k, dotted]
+  · simp [nestX, Naming.namesOf, hf, pairOf_nest fn obj b l hc hn ks k, dotted]
+  · simp [nestX, Naming.oldNames, isDirectXattr, hf, xattrPair_nest fn obj b l hc ho ks k, dotted]
 
 /-- The README reading of the same nest: the dotted access on the object's spelling, and the
 object's base. -/
@@ -660,18 +680,18 @@ theorem C10_xattr_spec (fn : Str) (obj : Expr) (hf : isXattr fn = true) :
 /-- C10 at one expression: (a) every successful naming is the README (base, spelling);
 (b) the two namers agree, for both values of `safe`; (c) safe naming succeeds. -/
 def C10_at (e : Expr) : Prop :=
-  (∀ s b l, (namesOf true s e = .ok b l ∨ oldNames s e = .ok b l) → b = Spec.base e ∧ l = Spec.spell e)
-  ∧ (∀ s, namesOf true s e = oldNames s e)
-  ∧ ((namesOf true true e).isOk = true ∧ (oldNames true e).isOk = true)
+  (∀ s b l, (Naming.namesOf true s e = .ok b l ∨ Naming.oldNames s e = .ok b l) → b = Spec.base e ∧ l = Spec.spell e)
+  ∧ (∀ s, Naming.namesOf true s e = Naming.oldNames s e)
+  ∧ ((Naming.namesOf true true e).isOk = true ∧ (Naming.oldNames true e).isOk = true)
 
 def C10_full : Prop := ∀ e, C10_at e
 
 /-- On the getattr-family-free fragment the full statement holds (all three clauses; (b) for
 `safe=True`, and for `safe=False` by `C10_agree_partial`). -/
 theorem C10_at_of_xattrFree (e : Expr) (h : xattrFree e = true) :
-    namesOf true true e = .ok (Spec.base e) (Spec.spell e)
-    ∧ namesOf true true e = oldNames true e
-    ∧ (namesOf true true e).isOk = true := by
+    Naming.namesOf true true e = .ok (Spec.base e) (Spec.spell e)
+    ∧ Naming.namesOf true true e = Naming.oldNames true e
+    ∧ (Naming.namesOf true true e).isOk = true := by
   have hc := C10_compositional e true h
   refine ⟨hc.1, by rw [hc.1, hc.2], by rw [hc.1]; rfl⟩
 
@@ -703,53 +723,53 @@ def w_nonliteral : Expr := .call (.name sGetattr) [.name sA, .name sN]
 /-- (c) fails: safe naming raises when a getattr-family object is unnameable — and (b) fails on the
 same input: the two namers raise different exception classes. -/
 theorem C10_cex_safe_raises :
-    namesOf true true w_unnameable_obj = .raised .binOp
-    ∧ oldNames true w_unnameable_obj = .raised .typeError := by decide
+    Naming.namesOf true true w_unnameable_obj = .raised .binOp
+    ∧ Naming.oldNames true w_unnameable_obj = .raised .typeError := by decide
 
 /-- (b) and (c) fail: `getattr(a, 'b')()` — the new namer exits ("too few args": it takes the
 *outer* call for a getattr call because the base name is `getattr`), the old one returns `a.b()`. -/
 theorem C10_cex_call_on_xattr :
-    namesOf true true w_call_on_xattr = .fatal .tooFewArgs
-    ∧ oldNames true w_call_on_xattr
+    Naming.namesOf true true w_call_on_xattr = .fatal .tooFewArgs
+    ∧ Naming.oldNames true w_call_on_xattr
         = .ok sGetattr ['a', '.', 'b', '(', ')'] := by decide
 
 /-- (a) fails: the base of a getattr-family spelling is the builtin's name, not the innermost
 variable (both namers). -/
 theorem C10_cex_xattr_base :
-    namesOf true true w_simple = .ok sGetattr ['a', '.', 'b']
-    ∧ oldNames true w_simple = .ok sGetattr ['a', '.', 'b']
+    Naming.namesOf true true w_simple = .ok sGetattr ['a', '.', 'b']
+    ∧ Naming.oldNames true w_simple = .ok sGetattr ['a', '.', 'b']
     ∧ Spec.spell w_simple = ['a', '.', 'b'] ∧ Spec.base w_simple = sA := by decide
 
 /-- (a) and (b) fail: `getattr.m(a, 'b')` is not a getattr call, yet the new namer spells it `a.b`
 (the old one: `getattr.m()`, as the README does). -/
 theorem C10_cex_indirect :
-    namesOf true true w_indirect = .ok sGetattr ['a', '.', 'b']
-    ∧ oldNames true w_indirect = .ok sGetattr (sGetattr ++ ['.', 'm', '(', ')'])
+    Naming.namesOf true true w_indirect = .ok sGetattr ['a', '.', 'b']
+    ∧ Naming.oldNames true w_indirect = .ok sGetattr (sGetattr ++ ['.', 'm', '(', ')'])
     ∧ Spec.spell w_indirect = sGetattr ++ ['.', 'm', '(', ')'] := by decide
 
 /-- (c) fails: a getattr-family call on a call result exits (both namers); the README spelling
 would be `f().b`. -/
 theorem C10_cex_obj_call :
-    namesOf true true w_obj_call = .fatal .nestedOtherCall
-    ∧ oldNames true w_obj_call = .fatal .nestedOtherCall
+    Naming.namesOf true true w_obj_call = .fatal .nestedOtherCall
+    ∧ Naming.oldNames true w_obj_call = .fatal .nestedOtherCall
     ∧ Spec.spell w_obj_call = ['f', '(', ')', '.', 'b'] := by decide
 
 /-- (c) fails: a getattr-family call with fewer than two positional arguments exits (both). -/
 theorem C10_cex_too_few :
-    namesOf true true w_too_few = .fatal .tooFewArgs
-    ∧ oldNames true w_too_few = .fatal .tooFewArgs := by decide
+    Naming.namesOf true true w_too_few = .fatal .tooFewArgs
+    ∧ Naming.oldNames true w_too_few = .fatal .tooFewArgs := by decide
 
 /-- Recorded, not claimed either way [interp]: a non-literal name is spelled `a.<n>`, a form
 outside the README table. (A test on one input, by `decide`.) -/
 theorem C10_obs_nonliteral :
-    namesOf true true w_nonliteral = .ok sGetattr ['a', '.', '<', 'n', '>']
-    ∧ oldNames true w_nonliteral = .ok sGetattr ['a', '.', '<', 'n', '>'] := by decide
+    Naming.namesOf true true w_nonliteral = .ok sGetattr ['a', '.', '<', 'n', '>']
+    ∧ Naming.oldNames true w_nonliteral = .ok sGetattr ['a', '.', '<', 'n', '>'] := by decide
 
 /-- `unravel_attr_access_calls=False` is honoured at the root only: `getattr(a,'b')` is then
 `getattr()`, but one attribute step above it the flag is lost. (A test, by `decide`.) -/
 theorem C10_obs_unravel_root_only :
-    namesOf false true w_simple = .ok sGetattr (sGetattr ++ ['(', ')'])
-    ∧ namesOf false true (.attr w_simple sC) = .ok sGetattr ['a', '.', 'b', '.', 'c'] := by decide
+    Naming.namesOf false true w_simple = .ok sGetattr (sGetattr ++ ['(', ')'])
+    ∧ Naming.namesOf false true (.attr w_simple sC) = .ok sGetattr ['a', '.', 'b', '.', 'c'] := by decide
 
 theorem C10_full_false : ¬ C10_full := by
   intro h
@@ -773,8 +793,8 @@ theorem tieA_error_ladder_old :
 table, by `decide`. -/
 theorem excOfKind_table :
     excOfKind kUnaryOp = .unaryOp ∧ excOfKind kBinOp = .binOp ∧ excOfKind kConstant = .constant
-    ∧ (∀ k ∈ astLiterals, excOfKind k = .literal)
-    ∧ (∀ k ∈ astComprehensions, excOfKind k = .comprehension)
+    ∧ (∀ k ∈ Naming.astLiterals, excOfKind k = .literal)
+    ∧ (∀ k ∈ Naming.astComprehensions, excOfKind k = .comprehension)
     ∧ (∀ k ∈ astNodeWithName, excOfKind k = .typeError) := by decide
 
 /-! ### Non-vacuity: each theorem's hypotheses are met by non-trivial inputs -/
@@ -800,8 +820,585 @@ example :
 example : agreeOK w_obj_call = true ∧ agreeOK w_too_few = true
     ∧ agreeOK (.call (.name sGetattr) [.other ['A','w','a','i','t'], .strConst sB]) = true := by decide
 /-- the nest theorem's hypotheses: `a.b` as object. -/
-example : isXattr sGetattr = true ∧ isCall (.attr (.name sA) sB) = false
-    ∧ namesOf true false (.attr (.name sA) sB) = .ok sA ['a', '.', 'b']
-    ∧ oldNames false (.attr (.name sA) sB) = .ok sA ['a', '.', 'b'] := by decide
+example : isXattr sGetattr = true ∧ C10.isCall (.attr (.name sA) sB) = false
+    ∧ Naming.namesOf true false (.attr (.name sA) sB) = .ok sA ['a', '.', 'b']
+    ∧ Naming.oldNames false (.attr (.name sA) sB) = .ok sA ['a', '.', 'b'] := by decide
+
+/-! ## The consumers of the namers
+
+The namers' results are consumed at the sites enumerated by `NamingSites.sites`
+(`tieA_consumer_sites`). For the function analyser — the model `FnA.visit` / `FnA.assignDiv` of
+RattrModel/FnAnalyser.lean, tied to `rattr/analyser/function.py` by the differential stage `ir` of
+py/props/c10sites.py on every run — the theorems below state, for ALL targets / arguments / call
+expressions on the getattr-family-free fragment, WHICH of the pair (base, spelling) ends up WHERE:
+a swapped unpacking at any of these sites contradicts them (and the correspondence). -/
+
+section Consumers
+open Rattr.FnA
+
+mutual
+/-- What the namers look at of a `Node` (the function analyser's AST): the projection onto the
+expression type of the namer model. Slices, keywords and expression contexts are dropped; every
+node that is not a name / attribute / subscript / starred / call / string constant is `other` with
+its class name. -/
+def toExpr : Node → Naming.Expr
+  | .name id _ => .name id
+  | .attr v a _ => .attr (toExpr v) a
+  | .sub v _ _ => .sub (toExpr v)
+  | .starred v _ => .starred (toExpr v)
+  | .call f args _ _ => .call (toExpr f) (toExprL args)
+  | .strConst s => .strConst s
+  | .lam ps b => .other (Node.lam ps b).className
+  | .comp k e g => .other (Node.comp k e g).className
+  | .gen t i f => .other (Node.gen t i f).className
+  | .walrus t v => .other (Node.walrus t v).className
+  | .const => .other Node.const.className
+  | .seq k e c => .other (Node.seq k e c).className
+  | .dict k v => .other (Node.dict k v).className
+  | .assign t v => .other (Node.assign t v).className
+  | .annAssign t a v => .other (Node.annAssign t a v).className
+  | .augAssign t v => .other (Node.augAssign t v).className
+  | .delete t => .other (Node.delete t).className
+  | .forLoop t i b o => .other (Node.forLoop t i b o).className
+  | .withStmt i b => .other (Node.withStmt i b).className
+  | .withitem c v => .other (Node.withitem c v).className
+  | .funcDef n p b => .other (Node.funcDef n p b).className
+  | .classDef n => .other (Node.classDef n).className
+  | .ret v => .other (Node.ret v).className
+  | .forbidden k => .other (Node.forbidden k).className
+  | .other k kids => .other (Node.other k kids).className
+termination_by structural n => n
+def toExprL : List Node → List Naming.Expr
+  | [] => []
+  | n :: r => toExpr n :: toExprL r
+termination_by structural l => l
+end
+
+
+theorem xattrBuiltins_contains (b : Str) : Rattr.xattrBuiltins.contains b = isXattr b := by
+  simp [Rattr.xattrBuiltins, isXattr, attrAccessBuiltins]
+
+/-- `any(is_call_to(x, node) for x in PYTHON_ATTR_ACCESS_BUILTINS)` on the model's `Node`. -/
+theorem xattr_any_isCallTo (f : Node) (args : List Node) (kwn : List (Option Str)) (kwv : List Node) :
+    Rattr.xattrBuiltins.any (fun x => Rattr.isCallTo x (.call f args kwn kwv)) = isDirectXattr (toExpr f) := by
+  cases f <;> simp [Rattr.isCallTo, isDirectXattr, toExpr, Rattr.xattrBuiltins, isXattr, attrAccessBuiltins]
+
+theorem constant_chars : "Constant".toList = ['C','o','n','s','t','a','n','t'] := by decide
+theorem lit_parens : Strs.lit "()" = parens := by decide
+theorem lit_brackets : Strs.lit "[]" = brackets := by decide
+
+theorem namesOf_standin (n : Node) (h : n.isNameable = false) :
+    Rattr.namesOf true n = .ok (Rattr.safeName n) (Rattr.safeName n) := by
+  cases n <;> first | (simp [Node.isNameable] at h; done) | simp [Rattr.namesOf]
+
+theorem oldNames_standin (n : Node) (h : n.isNameable = false) :
+    Rattr.oldNames true n = .ok (Rattr.safeName n) (Rattr.safeName n) := by
+  cases n <;> first | (simp [Node.isNameable] at h; done) | simp [Rattr.oldNames]
+
+/-- a node outside `AstNodeWithName`: safe naming gives the `@Kind` stand-in (both namers). -/
+theorem names_standin (n : Node) (h : n.isNameable = false) :
+    Rattr.namesOf true n = .ok (Rattr.safeName n) (Rattr.safeName n)
+    ∧ Rattr.oldNames true n = .ok (Rattr.safeName n) (Rattr.safeName n) :=
+  ⟨namesOf_standin n h, oldNames_standin n h⟩
+
+/-- … which is what the README table says of its projection. -/
+theorem spec_standin (n : Node) (h : n.isNameable = false) :
+    Spec.base (toExpr n) = Rattr.safeName n ∧ Spec.spell (toExpr n) = Rattr.safeName n
+    ∧ strictlyNameable (toExpr n) = false := by
+  cases n with
+  | strConst s =>
+    refine ⟨?_, ?_, by simp [toExpr, strictlyNameable]⟩ <;>
+      (show _ = '@' :: "Constant".toList; rw [constant_chars]; simp [toExpr, Spec.base, Spec.spell])
+  | name _ _ => simp [Node.isNameable] at h
+  | attr _ _ _ => simp [Node.isNameable] at h
+  | sub _ _ _ => simp [Node.isNameable] at h
+  | starred _ _ => simp [Node.isNameable] at h
+  | call _ _ _ _ => simp [Node.isNameable] at h
+  | _ => exact ⟨rfl, rfl, rfl⟩
+
+theorem names_spec_standin (n : Node) (safe : Bool) (hn : n.isNameable = false)
+    (hs : safe = true ∨ strictlyNameable (toExpr n) = true) :
+    Rattr.namesOf safe n = .ok (Spec.base (toExpr n)) (Spec.spell (toExpr n))
+    ∧ Rattr.oldNames safe n = .ok (Spec.base (toExpr n)) (Spec.spell (toExpr n)) := by
+  have hsp := spec_standin n hn
+  have hs' : safe = true := by
+    rcases hs with h | h
+    · exact h
+    · rw [hsp.2.2] at h; cases h
+  subst hs'
+  rw [(names_standin n hn).1, (names_standin n hn).2, hsp.1, hsp.2.1]
+  exact ⟨rfl, rfl⟩
+
+/-- **The function analyser's namers are the README spelling** on getattr-family-free spines: the
+`Node`-level `namesOf` / `oldNames` of RattrModel/NodeNaming.lean (what `FnA.visit` calls) return
+`(Spec.base, Spec.spell)` of the projection — safe naming on every such node, strict naming when
+the spine ends in a variable. -/
+theorem node_names_spec : ∀ (n : Node) (safe : Bool), xattrFree (toExpr n) = true →
+    (safe = true ∨ strictlyNameable (toExpr n) = true) →
+    Rattr.namesOf safe n = .ok (Spec.base (toExpr n)) (Spec.spell (toExpr n))
+    ∧ Rattr.oldNames safe n = .ok (Spec.base (toExpr n)) (Spec.spell (toExpr n))
+  | .name id c, safe, _, _ => by simp [Rattr.namesOf, Rattr.oldNames, toExpr, Spec.base, Spec.spell]
+  | .attr v a c, safe, hx, hs => by
+    have ih := node_names_spec v safe (by simpa [toExpr, xattrFree] using hx)
+      (by simpa [toExpr, strictlyNameable] using hs)
+    simp [Rattr.namesOf, Rattr.oldNames, toExpr, Spec.base, Spec.spell, ih.1, ih.2]
+  | .sub v sl c, safe, hx, hs => by
+    have ih := node_names_spec v safe (by simpa [toExpr, xattrFree] using hx)
+      (by simpa [toExpr, strictlyNameable] using hs)
+    simp [Rattr.namesOf, Rattr.oldNames, toExpr, Spec.base, Spec.spell, ih.1, ih.2, lit_brackets, brackets]
+  | .starred v c, safe, hx, hs => by
+    have ih := node_names_spec v safe (by simpa [toExpr, xattrFree] using hx)
+      (by simpa [toExpr, strictlyNameable] using hs)
+    simp [Rattr.namesOf, Rattr.oldNames, toExpr, Spec.base, Spec.spell, ih.1, ih.2]
+  | .call f args kwn kwv, safe, hx, hs => by
+    have hx' : xattrFree (toExpr f) = true ∧ isXattr (plainBase (toExpr f)) = false := by
+      simpa [toExpr, xattrFree] using hx
+    have ih := node_names_spec f safe hx'.1 (by simpa [toExpr, strictlyNameable] using hs)
+    have hp : ∀ g, toExpr f = .name g → isXattr g = false := by
+      intro g hg; have := hx'.2; rw [hg] at this; simpa [plainBase] using this
+    have hsp := spec_call_plain (toExpr f) (toExprL args) hp
+    have hb : Spec.base (toExpr f) = plainBase (toExpr f) := spec_base_plain _ hx'.1
+    have hd : isDirectXattr (toExpr f) = false := by
+      cases hf : toExpr f <;> simp_all [isDirectXattr, plainBase]
+    constructor
+    · simp only [Rattr.namesOf, ih.1, xattrBuiltins_contains, hb, hx'.2, toExpr, hsp.1, hsp.2, lit_parens]
+      simp
+    · simp only [Rattr.oldNames, ih.2, xattr_any_isCallTo, hd, toExpr, hsp.1, hsp.2, lit_parens]
+      simp
+  | .strConst s, safe, _, hs => names_spec_standin _ safe rfl hs
+  | .lam ps b, safe, _, hs => names_spec_standin _ safe rfl hs
+  | .comp k e g, safe, _, hs => names_spec_standin _ safe rfl hs
+  | .gen t i f, safe, _, hs => names_spec_standin _ safe rfl hs
+  | .walrus t v, safe, _, hs => names_spec_standin _ safe rfl hs
+  | .const, safe, _, hs => names_spec_standin _ safe rfl hs
+  | .seq k e c, safe, _, hs => names_spec_standin _ safe rfl hs
+  | .dict k v, safe, _, hs => names_spec_standin _ safe rfl hs
+  | .assign t v, safe, _, hs => names_spec_standin _ safe rfl hs
+  | .annAssign t a v, safe, _, hs => names_spec_standin _ safe rfl hs
+  | .augAssign t v, safe, _, hs => names_spec_standin _ safe rfl hs
+  | .delete t, safe, _, hs => names_spec_standin _ safe rfl hs
+  | .forLoop t i b o, safe, _, hs => names_spec_standin _ safe rfl hs
+  | .withStmt i b, safe, _, hs => names_spec_standin _ safe rfl hs
+  | .withitem c v, safe, _, hs => names_spec_standin _ safe rfl hs
+  | .funcDef n p b, safe, _, hs => names_spec_standin _ safe rfl hs
+  | .classDef n, safe, _, hs => names_spec_standin _ safe rfl hs
+  | .ret v, safe, _, hs => names_spec_standin _ safe rfl hs
+  | .forbidden k, safe, _, hs => names_spec_standin _ safe rfl hs
+  | .other k kids, safe, _, hs => names_spec_standin _ safe rfl hs
+
+
+/-! ### The consumers: what the function analyser records where it names an expression
+
+`Holds P r`: if the visitor step `r` succeeds, the state it leaves satisfies `P`. For properties that
+are preserved when the IR grows (`IrLe`), everything the visitor does afterwards is covered by the
+monotonicity lemmas of `RattrProofs/Lemmas/Visit.lean`. -/
+
+def Holds (P : St → Prop) (r : Res) : Prop := ∀ s', r = .ok s' → P s'
+
+theorem Holds.bind {P : St → Prop} {r : Res} {f : St → Res}
+    (h : ∀ s₁, r = .ok s₁ → Holds P (f s₁)) : Holds P (r >>>= f) := by
+  intro s' hs
+  obtain ⟨s₁, h1, h2⟩ := bind_ok hs
+  exact h s₁ h1 s' h2
+
+theorem Holds.of_mono {P : St → Prop} (hup : ∀ a b, IrLe a b → P a → P b) {s : St} {r : Res}
+    (hP : P s) (hm : Mono s r) : Holds P r :=
+  fun s' hs => hup s s' (hm s' hs).ir hP
+
+theorem Holds.liftName {P : St → Prop} {s : St} {r : NameRes} {k : Str → Str → Res}
+    (h : ∀ b f, r = .ok b f → Holds P (k b f)) : Holds P (liftName s r k) := by
+  cases r with
+  | ok b f => exact h b f rfl
+  | fatal d => intro _ hs; cases hs
+  | crash e => intro _ hs; cases hs
+
+theorem Holds.argNames {P : St → Prop} {s : St} {args : List Node} {k : St → List Str → Res}
+    (h : ∀ s₁ l, Holds P (k s₁ l)) : Holds P (argNames s args k) := by
+  induction args generalizing s k with
+  | nil => exact h s []
+  | cons a r ih =>
+    simp only [FnA.argNames]
+    split
+    · exact ih fun s₁ l => h s₁ _
+    · intro _ hs; cases hs
+    · intro _ hs; cases hs
+
+theorem Holds.kwargNames {P : St → Prop} {s : St} {kwn : List (Option Str)} {kwv : List Node}
+    {k : St → List (Str × Str) → Res}
+    (h : ∀ s₁ l, Holds P (k s₁ l)) : Holds P (kwargNames s kwn kwv k) := by
+  induction kwn generalizing kwv k with
+  | nil => simp only [FnA.kwargNames]; exact h s []
+  | cons o rn ih =>
+    cases kwv with
+    | nil => cases o <;> (simp only [FnA.kwargNames]; exact h s [])
+    | cons v rv =>
+      cases o with
+      | none => simp only [FnA.kwargNames]; exact ih h
+      | some key =>
+        simp only [FnA.kwargNames]
+        split
+        · exact ih fun s₁ l => h s₁ _
+        · intro _ hs; cases hs
+        · intro _ hs; cases hs
+
+/-- `Call.from_call(name, call, target, self=…)`: whatever the arguments are spelled, the record's
+name is `without_call_brackets(name)` and `self` (when given) is its first argument. -/
+theorem Holds.mkCall {P : St → Prop} {s : St} {name : Str} {args : List Node} {kwn : List (Option Str)}
+    {kwv : List Node} {target : Option Sym} {self : Option Str} {k : St → CallSym → Res}
+    (h : ∀ s₁ as kws, Holds P (k s₁ { name := Strs.withoutCallBrackets name, args := self.toList ++ as,
+                                      kwargs := kws, target := target })) :
+    Holds P (mkCall s name args kwn kwv target self k) := by
+  unfold FnA.mkCall
+  exact Holds.argNames fun s₁ as => Holds.kwargNames fun s₂ kws => h s₂ as kws
+
+/-- the section of the IR an expression context writes to (`update_results`). -/
+def secOf : ECtx → St → List NameS
+  | .load, s => s.gets
+  | .store, s => s.sets
+  | .del, s => s.dels
+
+theorem mem_updateResults (s : St) (n : NameS) (c : ECtx) : n ∈ secOf c (updateResults s n c) := by
+  cases c <;> exact mem_addTo_self _ _
+
+/-- `ast.Name` / `ast.Attribute` / `ast.Subscript` / `ast.Starred` and their expression context. -/
+def accessCtx : Node → Option ECtx
+  | .name _ c => some c
+  | .attr _ _ c => some c
+  | .sub _ _ c => some c
+  | .starred _ c => some c
+  | _ => none
+
+/-- **Consumer `get_and_verify_name` → `update_results`** (function.py: visit_Name /
+visit_compound_name). Whenever the visitor gets through an access node, the name it records in the
+section of the node's context (gets / sets / dels) is the documented spelling WITH the documented
+base, in that order — `Name(fullname, basename)`. -/
+theorem C10_site_access (env : Env) (mn : Str) (n : Node) (c : ECtx) (s s' : St)
+    (hc : accessCtx n = some c) (hx : xattrFree (toExpr n) = true)
+    (h : visit env mn n s = .ok s') :
+    (⟨Spec.spell (toExpr n), Spec.base (toExpr n)⟩ : NameS) ∈ secOf c s' := by
+  have hn := (node_names_spec n true hx (Or.inl rfl)).1
+  cases n with
+  | name id c' =>
+    simp only [accessCtx, Option.some.injEq] at hc; subst hc
+    rw [visit] at h
+    unfold FnA.getAndVerify FnA.liftName at h
+    rw [hn] at h
+    simp only at h
+    cases h
+    exact mem_updateResults _ _ _
+  | attr v a c' =>
+    simp only [accessCtx, Option.some.injEq] at hc; subst hc
+    rw [visit] at h
+    unfold FnA.getAndVerify FnA.liftName at h
+    rw [hn] at h
+    simp only at h
+    obtain ⟨s₂, _, h2⟩ := bind_ok h
+    cases h2
+    exact mem_updateResults _ _ _
+  | sub v sl c' =>
+    simp only [accessCtx, Option.some.injEq] at hc; subst hc
+    rw [visit] at h
+    unfold FnA.getAndVerify FnA.liftName at h
+    rw [hn] at h
+    simp only at h
+    obtain ⟨s₂, _, h2⟩ := bind_ok h
+    cases h2
+    exact mem_updateResults _ _ _
+  | starred v c' =>
+    simp only [accessCtx, Option.some.injEq] at hc; subst hc
+    rw [visit] at h
+    unfold FnA.getAndVerify FnA.liftName at h
+    rw [hn] at h
+    simp only at h
+    obtain ⟨s₂, _, h2⟩ := bind_ok h
+    cases h2
+    exact mem_updateResults _ _ _
+  | _ => simp [accessCtx] at hc
+
+
+theorem oneToOne_single (t v : Node) (ht : isTupleOrList t = false) (hv : isTupleOrList v = false) :
+    oneToOne [t] v = true := by
+  simp [FnA.oneToOne, ht, hv]
+
+/-- **Consumer `visit_ClassAssign`** (function.py: `lhs_basename, lhs_name = names_of(target)`): for a
+one-to-one assignment `t = C(...)` whose right-hand side the context resolves to a class, if the
+visitor gets through the statement then
+  * the `sets` contain `Name(spelling of t, base of t)` — full name first, base second — and
+  * the synthesised call to the initialiser has the SPELLING of `t` as its first (`self`) argument,
+whatever the target is (attribute chains, subscripts, calls in the chain). -/
+theorem C10_site_classAssign (env : Env) (mn : Str) (t f : Node) (args : List Node)
+    (kwn : List (Option Str)) (kwv : List Node) (s s' : St)
+    (hnt : namedtupleInRhs (.call f args kwn kwv) = false)
+    (hcls : classInRhs env s.ctx (.call f args kwn kwv) = .ok true)
+    (h11 : isTupleOrList t = false)
+    (hx : xattrFree (toExpr t) = true) (hv : strictlyNameable (toExpr t) = true)
+    (h : assignDiv env mn [t] (.call f args kwn kwv) s = .done (.ok s')) :
+    (⟨Spec.spell (toExpr t), Spec.base (toExpr t)⟩ : NameS) ∈ s'.sets
+    ∧ ∃ c ∈ s'.calls, c.args.head? = some (Spec.spell (toExpr t)) := by
+  have hn := (node_names_spec t false hx (Or.inr hv)).1
+  have hl : lambdaInRhs (.call f args kwn kwv) = false := by simp [FnA.lambdaInRhs, FnA.isLambda, FnA.isTupleOrList]
+  have h1 : oneToOne [t] (.call f args kwn kwv) = true := oneToOne_single _ _ h11 (by simp [FnA.isTupleOrList])
+  unfold assignDiv at h
+  simp only [hl, hnt, hcls, h1, Bool.false_eq_true, if_false, Bool.not_true] at h
+  injection h with h
+  have hup : ∀ a b, IrLe a b →
+      ((⟨Spec.spell (toExpr t), Spec.base (toExpr t)⟩ : NameS) ∈ a.sets
+        ∧ ∃ c ∈ a.calls, c.args.head? = some (Spec.spell (toExpr t))) →
+      ((⟨Spec.spell (toExpr t), Spec.base (toExpr t)⟩ : NameS) ∈ b.sets
+        ∧ ∃ c ∈ b.calls, c.args.head? = some (Spec.spell (toExpr t))) := by
+    intro a b hab hPa
+    exact ⟨hab.sets _ hPa.1, by obtain ⟨c, hc, hh⟩ := hPa.2; exact ⟨c, hab.calls _ hc, hh⟩⟩
+  refine (show Holds (fun u => (⟨Spec.spell (toExpr t), Spec.base (toExpr t)⟩ : NameS) ∈ u.sets
+        ∧ ∃ c ∈ u.calls, c.args.head? = some (Spec.spell (toExpr t))) _ from ?_) s' h
+  refine Holds.liftName fun b l hbl => Holds.liftName fun _ cn _ => Holds.mkCall fun s₁ as kws => ?_
+  rw [hn] at hbl
+  injection hbl with hb hl'
+  subst hb hl'
+  refine Holds.of_mono hup (hm := Mono.bind (Mono.addIdentifiersL _ _) fun s₂ =>
+      Mono.bind (visitList_mono env mn _ s₂) fun s₃ => visitList_mono env mn _ s₃) (hP := ?_)
+  exact ⟨mem_addTo_self _ _, _, mem_addCall_self _ _, by simp⟩
+
+
+/-- **Consumer `visit_LambdaAssign`** (function.py: `name = fullname_of(target)`): a lambda assigned
+to any (strictly nameable) target is registered in the context as a `Func` whose name is the
+SPELLING of the target. -/
+theorem C10_site_lambdaAssign (env : Env) (mn : Str) (t : Node) (ps : Params) (body : Node) (s : St)
+    (h11 : isTupleOrList t = false)
+    (hx : xattrFree (toExpr t) = true) (hv : strictlyNameable (toExpr t) = true) :
+    assignDiv env mn [t] (.lam ps body) s =
+      .done (.ok { (St.diag s (mkDiag .error "lambda-in-function")) with
+                   ctx := Context.add s.ctx (funcSym (Spec.spell (toExpr t)) ps.iface) }) := by
+  have hn := (node_names_spec t false hx (Or.inr hv)).1
+  have h1 : oneToOne [t] (.lam ps body) = true := oneToOne_single _ _ h11 (by simp [FnA.isTupleOrList])
+  unfold assignDiv
+  simp [FnA.lambdaInRhs, FnA.isLambda, h1, hn, FnA.liftName, St.diag]
+
+/-- **Consumer `visit_NamedTupleAssign`** (function.py: `name = fullname_of(target)`): a well-formed
+namedtuple declaration assigned to any (strictly nameable) target is registered as a `Class` whose
+name is the SPELLING of the target. -/
+theorem C10_site_namedtupleAssign (env : Env) (mn : Str) (t f : Node) (args : List Node)
+    (kwn : List (Option Str)) (kwv : List Node) (attrs : List Str) (s : St)
+    (hnt : namedtupleInRhs (.call f args kwn kwv) = true)
+    (hsig : namedtupleSignature args = .ok attrs)
+    (h11 : isTupleOrList t = false)
+    (hx : xattrFree (toExpr t) = true) (hv : strictlyNameable (toExpr t) = true) :
+    assignDiv env mn [t] (.call f args kwn kwv) s =
+      .done (.ok { s with ctx := Context.add s.ctx (clsSym (Spec.spell (toExpr t)) ⟨[], attrs, none, [], none⟩) }) := by
+  have hn := (node_names_spec t false hx (Or.inr hv)).1
+  have hl : lambdaInRhs (.call f args kwn kwv) = false := by simp [FnA.lambdaInRhs, FnA.isLambda, FnA.isTupleOrList]
+  have h1 : oneToOne [t] (.call f args kwn kwv) = true := oneToOne_single _ _ h11 (by simp [FnA.isTupleOrList])
+  unfold assignDiv
+  simp [hl, hnt, h1, hn, FnA.liftName, hsig]
+
+/-- **Consumers `arg_name` / `kwarg_name`** (models/symbol/_util.py: `get_fullname(arg, safe=True)`,
+the deprecated namer): the positional arguments of every call record are the documented spellings
+of the argument expressions, in order. -/
+theorem C10_site_argNames (args : List Node) (hx : ∀ a ∈ args, xattrFree (toExpr a) = true) :
+    ∀ (s : St) (k : St → List Str → Res),
+      ∃ s₁, argNames s args k = k s₁ (args.map fun a => Spec.spell (toExpr a)) := by
+  induction args with
+  | nil => intro s k; exact ⟨s, rfl⟩
+  | cons a r ih =>
+    intro s k
+    have ha := (node_names_spec a true (hx a (by simp)) (Or.inl rfl)).2
+    simp only [FnA.argNames, ha, List.map_cons]
+    exact ih (fun b hb => hx b (by simp [hb])) _ _
+
+theorem C10_site_kwargNames : ∀ (kwn : List (Option Str)) (kwv : List Node),
+    (∀ a ∈ kwv, xattrFree (toExpr a) = true) → kwn.length = kwv.length →
+    ∀ (s : St) (k : St → List (Str × Str) → Res),
+      kwargNames s kwn kwv k
+        = k s ((kwn.zip kwv).filterMap fun (o, v) => o.map fun key => (key, Spec.spell (toExpr v)))
+  | [], [], _, _, s, k => by simp [FnA.kwargNames]
+  | [], _ :: _, _, hl, _, _ => by simp at hl
+  | _ :: _, [], _, hl, _, _ => by simp at hl
+  | some key :: rn, v :: rv, hx, hl, s, k => by
+    have hv := (node_names_spec v true (hx v (by simp)) (Or.inl rfl)).2
+    simp only [FnA.kwargNames, hv]
+    rw [C10_site_kwargNames rn rv (fun b hb => hx b (by simp [hb])) (by simpa using hl)]
+    simp
+  | none :: rn, v :: rv, hx, hl, s, k => by
+    simp only [FnA.kwargNames]
+    rw [C10_site_kwargNames rn rv (fun b hb => hx b (by simp [hb])) (by simpa using hl)]
+    simp
+
+/-- **Consumers `add_identifiers_to_context` / `remove_identifiers_from_context`**
+(`unravel_names` with `basename_of`, resp. `fullname_of`): binding a (non-sequence) target binds its
+BASE; unbinding removes its SPELLING (`del a.b` does not unbind `a`). -/
+theorem C10_site_unravel (t : Node) (hnm : t.isNameable = true)
+    (hx : xattrFree (toExpr t) = true) (hv : strictlyNameable (toExpr t) = true) :
+    (match unravelNames t with | .ok l => l = [Spec.base (toExpr t)] | _ => False)
+    ∧ (match unravelFullNames t with | .ok l => l = [Spec.spell (toExpr t)] | _ => False) := by
+  have hn := (node_names_spec t false hx (Or.inr hv)).1
+  cases t <;> simp [Node.isNameable] at hnm <;>
+    simp [FnA.unravelNames, FnA.unravelFullNames, Node.isNameable, hn]
+
+/-- **Consumer `visit_NamedExpr`** (function.py: `Name(*names_of(node.target))`): the pair
+`(basename, fullname)` is passed positionally to `Name(name, basename)`, so what is recorded is
+`Name(name = BASE, basename = SPELLING)` — the two swapped. -/
+theorem C10_obs_walrus_positional (env : Env) (mn : Str) (t v : Node) (s s' : St)
+    (hx : xattrFree (toExpr t) = true) (hv : strictlyNameable (toExpr t) = true)
+    (h : visit env mn (.walrus t v) s = .ok s') :
+    (⟨Spec.base (toExpr t), Spec.spell (toExpr t)⟩ : NameS) ∈ s'.sets := by
+  have hn := (node_names_spec t false hx (Or.inr hv)).1
+  rw [visit] at h
+  rw [hn] at h
+  simp only [FnA.liftName] at h
+  have hm : Mono { s with sets := addTo s.sets ⟨Spec.base (toExpr t), Spec.spell (toExpr t)⟩ }
+      (visit env mn (.walrus t v) s) := by
+    rw [visit, hn]
+    simp only [FnA.liftName]
+    refine Mono.bind ?_ fun s₁ => ?_
+    · split
+      · exact visit_mono env mn _ _
+      · exact Mono.ok (StLe.refl _)
+    · have := assignDiv_mono env mn [t] v s₁
+      split
+      · rename_i r hr; rw [hr] at this; exact this
+      · rename_i s₂ hr; rw [hr] at this
+        exact Mono.weaken this (Mono.bind (visit_mono env mn _ _) fun s₃ => visit_mono env mn _ _)
+  exact ((hm s' (by rw [visit, hn]; simpa only [FnA.liftName] using h)).ir.sets _ (mem_addTo_self _ _))
+
+/-- … harmless exactly because the grammar only allows a plain name there: both coincide. -/
+theorem C10_site_walrus_plain (env : Env) (mn : Str) (id : Str) (c : ECtx) (v : Node) (s s' : St)
+    (h : visit env mn (.walrus (.name id c) v) s = .ok s') : (⟨id, id⟩ : NameS) ∈ s'.sets := by
+  have := C10_obs_walrus_positional env mn (.name id c) v s s' (by simp [toExpr, xattrFree])
+    (by simp [toExpr, strictlyNameable]) h
+  simpa [toExpr, Spec.base, Spec.spell] using this
+
+
+theorem call_tail (env : Env) (mn : Str) (X : Str) (args : List Node) (kwn : List (Option Str)) (kwv : List Node)
+    (s₀ : St) (target : Option Sym) (selfName : Option Str) :
+    Holds (fun u => ∃ c ∈ u.calls, c.name = Strs.withoutCallBrackets X)
+      (mkCall s₀ X args kwn kwv target selfName fun s call =>
+        let s := { s with calls := addCall s.calls call }
+        visitList env mn args s >>>= fun s => visitList env mn kwv s) := by
+  refine Holds.mkCall fun s₁ as kws => ?_
+  refine Holds.of_mono (fun a b hab ⟨c, hc, hh⟩ => ⟨c, hab.calls _ hc, hh⟩)
+    (hm := Mono.bind (visitList_mono env mn _ _) fun s₃ => visitList_mono env mn _ s₃) (hP := ?_)
+  exact ⟨_, mem_addCall_self _ _, rfl⟩
+
+/-- **Consumer `visit_Call`** (function.py: `custom_analyser_for_target` and
+`_, fullname = self.get_and_verify_name(node, ast.Load())`): a call that no custom analyser takes is
+recorded under `without_call_brackets(<documented spelling of the call expression>)`. -/
+theorem C10_site_call (env : Env) (mn : Str) (f : Node) (args : List Node) (kwn : List (Option Str))
+    (kwv : List Node) (s s' : St)
+    (hx : xattrFree (toExpr (.call f args kwn kwv)) = true)
+    (hna : analyserFor env mn (Context.getCallTarget env.ctxEnv s.ctx
+        (Strs.withoutCallBrackets (Spec.spell (toExpr (.call f args kwn kwv))))
+        (isCallOnCall (.call f args kwn kwv)) false).1 = none)
+    (h : visit env mn (.call f args kwn kwv) s = .ok s') :
+    ∃ c ∈ s'.calls, c.name = Strs.withoutCallBrackets (Spec.spell (toExpr (.call f args kwn kwv))) := by
+  have hn := (node_names_spec (.call f args kwn kwv) true hx (Or.inl rfl)).1
+  have hx' : xattrFree (toExpr f) = true ∧ isXattr (plainBase (toExpr f)) = false := by
+    simpa [toExpr, xattrFree] using hx
+  have hf := (node_names_spec f true hx'.1 (Or.inl rfl)).1
+  have hp : ∀ g, toExpr f = .name g → isXattr g = false := by
+    intro g hg; have := hx'.2; rw [hg] at this; simpa [plainBase] using this
+  have hsp := (spec_call_plain (toExpr f) (toExprL args) hp).1
+  have htn : targetNameNoUnravel (.call f args kwn kwv)
+      = .ok (Spec.base (toExpr f)) (Strs.withoutCallBrackets (Spec.spell (toExpr (.call f args kwn kwv)))) := by
+    simp only [Rattr.targetNameNoUnravel, hf, toExpr, hsp, lit_parens]
+  unfold visit at h
+  simp only [htn, FnA.liftName, hna] at h
+  unfold FnA.getAndVerify FnA.liftName at h
+  rw [hn] at h
+  simp only at h
+  exact call_tail env mn _ args kwn kwv _ _ _ s' h
+
+
+/-- **Consumer `visit_ReturnValue`** (function.py: `fullname_of(node, safe=True)` to look the target
+up, `class_name = fullname_of(node)` for the record): `return C(...)` with `C` resolving to a class
+records a call under `without_call_brackets(<documented spelling of the call>)` whose first argument
+is the stand-in `@ReturnValue`. -/
+theorem C10_site_returnClass (env : Env) (mn : Str) (f : Node) (args : List Node) (kwn : List (Option Str))
+    (kwv : List Node) (s s' : St) (k : St → Bool → Res) (hk : ∀ s₁ b, Mono s₁ (k s₁ b))
+    (hx : xattrFree (toExpr (.call f args kwn kwv)) = true)
+    (hv : strictlyNameable (toExpr (.call f args kwn kwv)) = true)
+    (hcls : symIsClass (Context.getCallTarget env.ctxEnv s.ctx (Spec.spell (toExpr (.call f args kwn kwv)))
+        (isCallOnCall (.call f args kwn kwv)) false).1 = true)
+    (h : visitReturnValue env mn (.call f args kwn kwv) s k = .ok s') :
+    ∃ c ∈ s'.calls, c.name = Strs.withoutCallBrackets (Spec.spell (toExpr (.call f args kwn kwv)))
+      ∧ c.args.head? = some "@ReturnValue".toList := by
+  have hn := (node_names_spec (.call f args kwn kwv) true hx (Or.inl rfl)).1
+  have hn' := (node_names_spec (.call f args kwn kwv) false hx (Or.inr hv)).1
+  have hx' : xattrFree (toExpr f) = true ∧ isXattr (plainBase (toExpr f)) = false := by
+    simpa [toExpr, xattrFree] using hx
+  have hd : isDirectXattr (toExpr f) = false := by
+    cases hf : toExpr f <;> simp_all [isDirectXattr, plainBase]
+  rw [visitReturnValue] at h
+  simp only [xattr_any_isCallTo, hd, Bool.false_eq_true, if_false, hn, hn', FnA.liftName, hcls, Bool.not_true] at h
+  refine (show Holds (fun u => ∃ c ∈ u.calls,
+      c.name = Strs.withoutCallBrackets (Spec.spell (toExpr (.call f args kwn kwv)))
+      ∧ c.args.head? = some "@ReturnValue".toList) _ from ?_) s' h
+  refine Holds.mkCall fun s₁ as kws => ?_
+  refine Holds.of_mono (fun a b hab ⟨c, hc, hh⟩ => ⟨c, hab.calls _ hc, hh⟩)
+    (hm := Mono.bind (visitList_mono env mn _ _) fun s₃ =>
+      Mono.bind (visitList_mono env mn _ s₃) fun s₄ => hk s₄ true) (hP := ?_)
+  exact ⟨_, mem_addCall_self _ _, rfl, by simp⟩
+
+/-! ### What the consumers do to a documented spelling AFTER naming it: three defect classes of the
+pinned code downstream of the namers (each replayed on the implementation by py/props/c10sites.py
+and listed in known_findings.json) -/
+
+private def sX : Str := ['x']
+private def sK : Str := ['k']
+private def sW : Str := ['w']
+private def sE : Str := ['e']
+private def sItems : Str := ['i','t','e','m','s']
+
+/-- `x.m()` -/
+def w_inner_call : Expr := .call (.attr (.name sX) ['m']) []
+/-- `x.m()(1)` -/
+def w_call_on_call : Expr := .call w_inner_call [.other kConstant]
+/-- `x[0].a.m()` -/
+def w_receiver : Expr := .call (.attr (.attr (.sub (.name sX)) ['a']) ['m']) []
+/-- `x[0]` (the object of `getattr(x[0], 'k')`) -/
+def w_sub_obj : Expr := .sub (.name sX)
+
+/-- The call record's name (`C10_site_call`: `without_call_brackets` of the spelling) does not
+distinguish a call on a call result from the inner call: `x.m()(1)` and `x.m()` have different
+documented spellings and the same record name `x.m`. -/
+theorem C10_cex_call_on_call_collapsed :
+    Spec.spell w_call_on_call = ['x','.','m','(',')','(',')']
+    ∧ Spec.spell w_inner_call = ['x','.','m','(',')']
+    ∧ Strs.withoutCallBrackets (Spec.spell w_call_on_call) = Strs.withoutCallBrackets (Spec.spell w_inner_call) := by
+  decide
+
+/-- `visit_Call`'s receiver prefixes are `Name(prefix, parts[0])`: for `x[0].a.m()` the recorded
+base of the prefix `x[].a` is `x[]`, not the innermost variable `x`. -/
+theorem C10_cex_receiver_prefix_base :
+    receiverPrefixes (Spec.spell w_receiver) = [⟨['x','[',']','.','a'], ['x','[',']']⟩]
+    ∧ Spec.base w_receiver = sX := by decide
+
+/-- The getattr-family analysers report the dotted prefixes of the accessed name with the default
+basename (first dotted component of the spelling): for `getattr(x[0], 'k')` the prefix `x[]` gets the
+base `x[]`, not `x`. -/
+theorem C10_cex_xattr_lhs_base :
+    lhsNames (Spec.spell w_sub_obj ++ ['.'] ++ sK) = [⟨['x','[',']'], ['x','[',']']⟩]
+    ∧ Spec.base w_sub_obj = sX := by decide
+
+/-- `sorted(x.items, key=lambda e: e.w)`: unbinding the lambda's parameter with the iterable's
+SPELLING gives the substituted name that spelling as its base (`x.items`, not `x`). -/
+theorem C10_cex_sorted_unbound_base :
+    Results.unbindList [(sE, Spec.spell (.attr (.name sX) sItems))] [⟨sE ++ ['.'] ++ sW, sE⟩]
+      = some [⟨['x','.','i','t','e','m','s','.','w'], ['x','.','i','t','e','m','s']⟩]
+    ∧ Spec.base (.attr (.name sX) sItems) = sX := by decide
+
+/-! ### Non-vacuity of the consumer theorems -/
+
+private def nShape : Node := .name ['s'] .store
+/-- `s.corners[0].anchor` as an assignment target -/
+private def nTarget : Node := .attr (.sub (.attr nShape ['c'] .store) .const .store) ['a'] .store
+
+example : toExpr nTarget = .attr (.sub (.attr (.name ['s']) ['c'])) ['a'] := by
+  simp [nTarget, nShape, toExpr]
+example : xattrFree (toExpr nTarget) = true ∧ strictlyNameable (toExpr nTarget) = true
+    ∧ accessCtx nTarget = some .store ∧ isTupleOrList nTarget = false ∧ nTarget.isNameable = true := by
+  simp [nTarget, nShape, toExpr, xattrFree, strictlyNameable, accessCtx, FnA.isTupleOrList, Node.isNameable]
+example : Spec.spell (toExpr nTarget) = ['s','.','c','[',']','.','a'] ∧ Spec.base (toExpr nTarget) = ['s'] := by
+  simp [nTarget, nShape, toExpr, Spec.spell, Spec.base]
+
+end Consumers
 
 end Rattr.C10
